@@ -70,6 +70,10 @@ def target(fam, n, tradok, variant):
         if shape in (1, 3):
             src = src.copy()
             src.namespace = None        # default namespace applies
+        if shape in (2, 3):
+            # a path as an earlier operation returned it: with host
+            src = src.copy()
+            src.host = "srv.example.com:5989"
         return (src,), {}
     return ("WQL", "SELECT * FROM VN3"), {}
 
@@ -280,6 +284,99 @@ def run_history(rng, upo, ncalls, variant, script=None):
     return events, info
 
 
+def run_overlap(rng, upo):
+    """Several iterators alive at the same time on ONE connection (the
+    enumeration sessions overlap on the server): each must still deliver its
+    own traditional result.  A random schedule of new / next / close steps
+    over up to three live iterators, then everything is drained."""
+    conn = new_conn(upo, False)
+    live, done, events, info = [], [], [], []
+    before = nctx(conn)
+
+    def start():
+        fam = rng.choice([1, 2, 3, 4, 5, 6])
+        n = rng.choice([2, 3, 4, 5, 7])
+        variant = rng.randint(0, 9)
+        args, kw = target(fam, n, True, variant)
+        try:
+            trad = getattr(conn, TRAD[fam])(*args, **kw)
+            tradok = True
+        except pywbem.Error:
+            trad, tradok = [], False
+        keys = []
+        for o in trad:
+            kk = c14.obj_key(o)
+            if kk not in keys:
+                keys.append(kk)
+        mocn = rng.choice([1, 1, 2])
+        kw = dict(kw, MaxObjectCount=mocn)
+        it = dict(fam=fam, keys=keys, tradok=tradok, mocn=mocn, yielded=[],
+                  res="done", code=0, nexts=0, closed=False,
+                  call="%s(%s, %s)" % (ITER[fam], ", ".join(map(str, args)),
+                                       kw))
+        try:
+            it["gen"] = getattr(conn, ITER[fam])(*args, **kw)
+        except Exception as exc:  # noqa
+            it["gen"] = None
+            it["res"] = type(exc).__name__
+        live.append(it)
+
+    def step(it, how):
+        if it["gen"] is None:
+            live.remove(it)
+            done.append(it)
+            return
+        try:
+            if how == "close":
+                it["gen"].close()
+                it["closed"] = True
+                live.remove(it)
+                done.append(it)
+                return
+            it["nexts"] += 1
+            it["yielded"].append(next(it["gen"]))
+        except StopIteration:
+            it["nexts"] -= 1
+            live.remove(it)
+            done.append(it)
+        except CIMError as exc:
+            it["res"], it["code"] = "CIMError", int(exc.status_code)
+            live.remove(it)
+            done.append(it)
+        except Exception as exc:  # noqa
+            it["res"] = type(exc).__name__
+            live.remove(it)
+            done.append(it)
+
+    for _ in range(rng.randint(6, 16)):
+        if len(live) < 3 and (not live or rng.random() < 0.35):
+            start()
+        elif live:
+            it = rng.choice(live)
+            step(it, "close" if rng.random() < 0.15 else "next")
+    while live:
+        step(live[0], "next")
+    gc.collect()
+    left = nctx(conn) - before if before >= 0 else -1
+    for i, it in enumerate(done):
+        ids = [it["keys"].index(c14.obj_key(o)) + 1
+               if c14.obj_key(o) in it["keys"] else 99 for o in it["yielded"]]
+        ev = dict(op="Iter", fam=it["fam"], upo=upo, srv=True, fq=False,
+                  coe=False, moc="ok", mocn=it["mocn"],
+                  trad=list(range(1, len(it["keys"]) + 1)),
+                  tradok=it["tradok"],
+                  consume="close" if it["closed"] else "exhaust",
+                  k=it["nexts"] if it["closed"] else 0, faulted=False,
+                  res=it["res"], code=it["code"], yielded=ids,
+                  pathsok=paths_ok(it["fam"], it["yielded"], False),
+                  nctx=left if i == len(done) - 1 else 0, fresh="done")
+        events.append(ev)
+        info.append(dict(call=it["call"] + " [overlapping iterators]",
+                         learned="-", shadow="done", consume=ev["consume"],
+                         k=ev["k"], fault=0))
+    return events, info
+
+
 def signature(ev, inf, clauses):
     return "Iter:%s:res=%s%s:upo=%s:learned=%s:srv=%s:%s" % (
         "+".join(sorted(clauses)), ev["res"],
@@ -316,6 +413,8 @@ def run(ctx):
     for i in range(nh):
         upo = ["N", "N", "T", "F"][i % 4]
         hists.append(run_history(ctx.rng, upo, ctx.rng.randint(3, 9), i))
+    for i in range(40 if quick else 800):
+        hists.append(run_overlap(ctx.rng, ["T", "N"][i % 2]))
     verdicts = ctx.validate_traces("IterClientTrace", "IterClientTrace.cfg",
                                    [h[0] for h in hists])
     # every event is judged on its own (the requirement is history-free), so
